@@ -49,6 +49,9 @@ func c07CheckOps(m eng.Mode, a, b, c uint64) (string, string) {
 	if res.Outcome != eng.Accept {
 		return "verdict", fmt.Sprintf("honest canonical operands (%d,%d,%d) not accepted: %s", a, b, c, fmtRes(res))
 	}
+	if res.TolerantHints > 0 {
+		return "shipped-hint-failed", fmt.Sprintf("operands (%d,%d,%d): %d shipped hint function(s) panicked or erred on honest operands", a, b, c, res.TolerantHints)
+	}
 	mulAdd := ref.Add(ref.Mul(a, b), c)
 	exact := []uint64{ref.Add(a, b), ref.Sub(a, b), ref.Mul(a, b), mulAdd}
 	for i, w := range exact {
@@ -106,6 +109,9 @@ func c07CheckReduce(m eng.Mode, x *big.Int, bits uint64) (string, string) {
 	if x.Cmp(limit) < 0 {
 		if res.Outcome != eng.Accept {
 			return "reduce-verdict", fmt.Sprintf("Reduce[%d bits](%s) (< 2^%d*p) not accepted: %s", bits, x, w, fmtRes(res))
+		}
+		if res.TolerantHints > 0 {
+			return "reduce-hint-failed", fmt.Sprintf("Reduce[%d bits](%s) (< 2^%d*p): the shipped ReduceHint failed on an admissible input", bits, x, w)
 		}
 	}
 	if res.Outcome == eng.Accept && out[0].Cmp(want) != 0 {
@@ -312,6 +318,9 @@ func runProg(p glProg) (string, string) {
 		res, out := gad.Run(eng.Options{Mode: eng.Mode(p.Mode)}, in, fn)
 		if res.Outcome != eng.Accept {
 			return "program/eng-not-accepted", fmt.Sprintf("program %v on inputs %v: %s", p.Ops, p.Inputs, fmtRes(res))
+		}
+		if res.TolerantHints > 0 {
+			return "program/shipped-hint-failed", fmt.Sprintf("program %v on inputs %v: a shipped hint failed on honest values", p.Ops, p.Inputs)
 		}
 		for i := range want {
 			if out[i].Cmp(want[i]) != 0 {
